@@ -108,6 +108,67 @@ class C11(Prop):
                         '(an inner timeout that was handled earlier was taken for an unhandled one)')
         return None
 
+    def extra_checks(self, ctx):
+        """a timeout block entered while the cancellation of an enclosing block's timeout is unwinding - in a `finally`
+        clause, or in an `except CancelledError` handler that re-raises -: the enclosing block still reports its timeout
+        (the program DSL has no `finally`; these shapes run on the implementation only)"""
+        import asyncio
+        from harness.core import Failure
+        from aiorpcx import curio
+        out, n = [], 0
+        for okind in ('timeout', 'ignore'):
+            for ikind in ('timeout', 'ignore'):
+                for style in ('finally', 'except_reraise'):
+                    for inner_deadline, cleanup in ((16, 2), (16, 0), (4, 2)):
+                        loop = tc.TLoop()
+                        asyncio.set_event_loop(loop)
+                        info = {}
+
+                        async def main():
+                            ofn = curio.timeout_after if okind == 'timeout' else curio.ignore_after
+                            ifn = curio.timeout_after if ikind == 'timeout' else curio.ignore_after
+                            t0 = loop.time()
+                            cm = ofn(8 * tc.TICK)
+
+                            async def cleanup_block():
+                                async with ifn(inner_deadline * tc.TICK):
+                                    if cleanup:
+                                        await asyncio.sleep(cleanup * tc.TICK)
+                            try:
+                                async with cm:
+                                    if style == 'finally':
+                                        try:
+                                            await asyncio.sleep(60 * tc.TICK)
+                                        finally:
+                                            await cleanup_block()
+                                    else:
+                                        try:
+                                            await asyncio.sleep(60 * tc.TICK)
+                                        except asyncio.CancelledError:
+                                            await cleanup_block()
+                                            raise
+                                info['out'] = 'normal'
+                            except BaseException as e:
+                                info['out'] = type(e).__name__
+                            info['expired'] = cm.expired
+                            info['left_at'] = round((loop.time() - t0) / tc.TICK, 3)
+                        try:
+                            loop.run_until_complete(main())
+                        finally:
+                            loop.close()
+                            asyncio.set_event_loop(None)
+                        n += 1
+                        want = 'TaskTimeout' if okind == 'timeout' else 'normal'
+                        if info.get('out') != want or not info.get('expired'):
+                            out.append(Failure({'kind': 'block_entered_while_unwinding', 'outer': okind, 'inner': ikind, 'style': style,
+                                                'outer_deadline_ticks': 8, 'inner_deadline_ticks': inner_deadline, 'cleanup_ticks': cleanup}, info,
+                                               f"a {okind} block still running at its deadline, whose body enters another timeout block while the "
+                                               f"cancellation unwinds ({style}), was left by {info.get('out')} with expired = {info.get('expired')}: "
+                                               f"it must report its own timeout ({'TaskTimeout' if okind == 'timeout' else 'quiet end'}, expired set)"))
+        ctx['extra_evals'] += n
+        ctx['notes'].append(f'blocks entered while an enclosing timeout is unwinding (finally / except-and-re-raise): {n} shapes on the implementation')
+        return out[:3]
+
     def nontrivial(self, case, obs):
         return tc.nblocks(case['prog']) >= 2 and any(x[1] for x in obs['log'])
 
